@@ -161,7 +161,7 @@ def tzmon_layers(env, profiles=("release", "checked"), opts=None):
 # ------------------------------------------------------------------------------------------------
 # Miri slice: the same monitor, a small slice of its workload, under the UB / data-race interpreter
 
-def miri_layer(env, scale, threads=1, prop=None, opts=None, seeds=None, name="miri"):
+def miri_layer(env, scale, threads=1, prop=None, opts=None, seeds=None, name="miri", budget=None):
     @layer(name)
     def f():
         tdir = os.path.join(env.harness, "target-miri")
@@ -174,6 +174,8 @@ def miri_layer(env, scale, threads=1, prop=None, opts=None, seeds=None, name="mi
             flags += " -Zmiri-many-seeds=%s" % seeds
         e["MIRIFLAGS"] = flags
         cmd = ["cargo", "+nightly", "miri", "run", "--offline", "--bin", "tzmon", "--", prop or env.prop, "--tier", "quick", "--seed", str(env.seed), "--threads", str(threads), "--scale", repr(scale), "--corpus", env.corpus, "--out", out]
+        # wall-clock budget per workload: bounds the volume explored by the slice, never a verdict
+        cmd += ["--budget", str(budget if budget is not None else (4 if env.quick() else 40))]
         for k, v in sorted((opts or {}).items()):
             cmd += ["--opt", "%s=%s" % (k, v)]
         try:
@@ -238,3 +240,12 @@ reg("C01", std_layers(0.0007))
 reg("C02", std_layers(0.0005))
 reg("C16", std_layers(0.0005))
 reg("C18", std_layers(0.02))
+reg("C03", std_layers(0.002))
+reg("C04", std_layers(0.002))
+reg("C05", std_layers(0.0005))
+reg("C06", std_layers(0.0005))
+reg("C11", std_layers(0.002))
+reg("C12", std_layers(0.003))
+reg("C17", std_layers(0.0005))
+reg("C13", std_layers(0.0005))
+reg("C14", std_layers(0.0005))
